@@ -58,23 +58,23 @@ WHEN = {
 }
 
 
-def run_kit(kit, tier, seed_, budget, ukey=None, freeze=False):
+def run_kit(kit, tier, seed_, budget, ukey=None, freeze=False, workers=common.NCPU):
     """model check + S->C + C->S + validation for one kit.  Returns (mc, recs, bad)."""
     t = common.Timer()
-    mc = core.model_check(kit, tier, ukey=ukey)
+    mc = core.model_check(kit, tier, ukey=ukey, workers=workers)
     log(f"[{kit.name}] TLC: {mc['states']} distinct states, {mc['transitions']} transitions, depth {mc['depth']}, "
         f"{mc['emitted_states']} states emitted ({t():.0f}s)")
-    recs, info = core.s2c(kit, mc, budget=budget["s2c"], seed_=seed_)
+    recs, info = core.s2c(kit, mc, budget=budget["s2c"], seed_=seed_, jobs=workers)
     for r in recs:
         r["dir"] = "S2C"
     log(f"[{kit.name}] S->C: {len(recs)} of {info['pairs_total']} (state, op) inputs replayed ({t():.0f}s)")
     hrecs = core.c2s(kit, histories=budget["histories"], length=budget["length"], seed_=seed_,
-                     extra={"freeze": True} if freeze else None)
+                     extra={"freeze": True} if freeze else None, jobs=workers)
     for r in hrecs:
         r["dir"] = "C2S"
     log(f"[{kit.name}] C->S: {budget['histories']} histories, {len(hrecs)} calls ({t():.0f}s)")
     allrecs = recs + hrecs
-    bad = common.validate_records(allrecs, kit.trace_module)
+    bad = common.validate_records(allrecs, kit.trace_module, jobs=workers)
     log(f"[{kit.name}] trace validation: {len(allrecs)} records, {len(bad)} with verdicts ({t():.0f}s)")
     info["histories"] = budget["histories"]
     info["history_calls"] = len(hrecs)
@@ -144,13 +144,16 @@ def core_check(prop, tier, seed_):
     tainted = unspecified = 0
     selftests = {}
     other_props = Counter()
-    for kname in spec["kits"]:
-        kit = core._KITS.get(kname)
-        if kit is None:
-            continue
-        mc, recs, bad, info = run_kit(kit, tier, seed_, budget,
-                                      ukey=(spec["ukey"] + tier) if spec.get("ukey") else None,
-                                      freeze=spec.get("freeze", False))
+    from concurrent.futures import ThreadPoolExecutor
+
+    kits_ = [core._KITS[k] for k in spec["kits"] if k in core._KITS]
+    with ThreadPoolExecutor(max_workers=len(kits_)) as tex:
+        results = list(tex.map(lambda kit: run_kit(kit, tier, seed_, budget,
+                                                   ukey=(spec["ukey"] + tier) if spec.get("ukey") else None,
+                                                   freeze=spec.get("freeze", False),
+                                                   workers=max(4, common.NCPU // len(kits_))), kits_))
+    for kit, (mc, recs, bad, info) in zip(kits_, results):
+        kname = kit.name
         selftests[kname] = selftest(kit, recs, bad)
         cov["states"] += mc["states"]
         cov["transitions"] += mc["transitions"]
